@@ -7,6 +7,7 @@ import (
 	"encoding/binary"
 	"encoding/hex"
 	"fmt"
+	"io"
 	"reflect"
 	"testing"
 	"time"
@@ -62,6 +63,24 @@ func check(c Case) (kind, what string, nt bool) {
 		p2, rerr2 = icc.NewProfileReader(bufio.NewReaderSize(s, 16)).ReadProfile()
 	}); pn {
 		return "panic", msg, true
+	}
+	// ... and from seekable standard readers positioned after a prefix (a profile embedded in a larger stream)
+	for ki, kind := range []string{"bytes.Reader", "strings.Reader", "bytes.Buffer"} {
+		var p3 *icc.Profile
+		var rerr3 error
+		prefix := []int{36, 1, 128}[ki]
+		if pn, msg := ev.Guard(func() {
+			r, _, _ := src.Std(kind, prefix, data, "")
+			p3, rerr3 = icc.NewProfileReader(r.(interface {
+				io.Reader
+				io.ByteReader
+			})).ReadProfile()
+		}); pn {
+			return "panic", msg, true
+		}
+		if (rerr == nil) != (rerr3 == nil) || (rerr == nil && !reflect.DeepEqual(p.Header, p3.Header)) {
+			return "reader-dependent", fmt.Sprintf("header decoded from a %s positioned after %d prefix bytes differs from the one decoded at offset 0: %v / %v (header %s)", kind, prefix, rerr3, rerr, c.Header), true
+		}
 	}
 	if (rerr == nil) != (rerr2 == nil) || (rerr == nil && !reflect.DeepEqual(p.Header, p2.Header)) {
 		return "reader-dependent", fmt.Sprintf("header decoded from a short-reading buffered reader differs from the one decoded from bytes.Reader: %v / %v (header %s)", rerr2, rerr, c.Header), true
